@@ -10,6 +10,9 @@
    user array `xrl_shared`, not copied: several threads hand the same Crystal_Struct to the library; NULL without one).
    `retain-<op>`: objects the op hands out — results AND the error object of a failing call, whatever the op — are kept
    alive and re-rendered at the end of the history (history harness only).
+   `AppErrno <n>` / `AppFe <0|1>` are not library calls: they stand for what the APPLICATION (or any libc / libm call it made) may leave in
+   the calling thread between two library calls — errno = n, the floating-point exception flags all raised / all cleared.  A query is a
+   function of its arguments: what it returns must not depend on either.
    The dispatch of the functions with a generic signature is generated from the clang AST of the working tree on
    every run (xrl_ops_gen.inc, see tools/xrlops.py). */
 #ifndef XRL_OPS_H
@@ -20,6 +23,8 @@
 #include <string.h>
 #include <stdint.h>
 #include <stdarg.h>
+#include <errno.h>
+#include <fenv.h>
 #include "xraylib.h"
 #include "xraylib-error-private.h"
 #include "xrf_cross_sections_aux.h"
@@ -220,6 +225,13 @@ static int xrl_op(obuf *o, char **t, int nt, retained **keep) {
     ob_put(o, "i:%d", r); if (arr) ob_arr(o, arr); SLOT_END; Crystal_ArrayFree(arr); return 1; }
   if (!strcmp(op, "ReadFileBuiltin") && nt == 3) {    /* file slot: EXPLICIT insertion of a file's crystals into the built-in array */
     SLOT(t[2]); int r = Crystal_ReadFile(op_ps(t[1]), NULL, ep); ob_put(o, "i:%d", r); SLOT_END; return 1; }
+  if (!strcmp(op, "ReadFileDir") && nt == 2) {        /* slot: Crystal_ReadFile of a path that opens but cannot be read (the working DIRECTORY), built-in array */
+    SLOT(t[1]); int r = Crystal_ReadFile(".", NULL, ep); ob_put(o, "i:%d", r); SLOT_END; return 1; }
+  if (!strcmp(op, "ReadFileDirUser") && nt == 2) {    /* slot: the same into a user array */
+    SLOT(t[1]); Crystal_Array *arr = Crystal_ArrayInit(0, NULL); int r = arr ? Crystal_ReadFile(".", arr, ep) : -1;
+    ob_put(o, "i:%d", r); if (arr) ob_arr(o, arr); SLOT_END; Crystal_ArrayFree(arr); return 1; }
+  if (!strcmp(op, "AppErrno") && nt == 2) { errno = op_pi(t[1]); ob_put(o, "v"); return 1; }
+  if (!strcmp(op, "AppFe") && nt == 2) { if (op_pi(t[1])) feraiseexcept(FE_ALL_EXCEPT); else feclearexcept(FE_ALL_EXCEPT); ob_put(o, "v"); return 1; }
   if (!strcmp(op, "SharedGet") && nt == 3) {           /* name slot: lookup (copy) in the shared user array */
     SLOT(t[2]); Crystal_Struct *c = xrl_shared ? Crystal_GetCrystal(op_ps(t[1]), xrl_shared, ep) : NULL; ob_crystal(o, c); SLOT_END;
     if (c) { if (ret) retain(keep, 1, c); else Crystal_Free(c); } return 1; }
